@@ -44,6 +44,7 @@ type lossHist struct {
 	stores     int
 	nacks      int
 	lastNack   []uint16 // numbers denoted by the most recent NACK of readloop
+	sincePrune int
 }
 
 func newLossHist(t *tr.Trace, r *tr.Rand, stream string, capacity int) *lossHist {
@@ -58,10 +59,12 @@ func newLossHist(t *tr.Trace, r *tr.Rand, stream string, capacity int) *lossHist
 func (h *lossHist) noteStore(seq uint16) {
 	h.stores++
 	h.everRecv[seq] = true
+	jumped := false
 	if !h.haveNewest {
 		h.haveNewest = true
 		h.newest = seq
 	} else if int16(seq-h.newest) > 0 {
+		jumped = seq-h.newest > 300
 		h.newest = seq
 	} else if h.newest-seq > 0x100 {
 		h.newest = seq
@@ -72,14 +75,19 @@ func (h *lossHist) noteStore(seq uint16) {
 	}
 	h.recv[seq] = true
 	// numbers far behind the newest cannot be told from numbers a cycle ahead
-	if len(h.recv) > 1500 {
+	h.sincePrune++
+	if h.sincePrune < 200 && !jumped {
+		return
+	}
+	h.sincePrune = 0
+	{
 		for n := range h.recv {
 			if h.newest-n > 1000 {
 				delete(h.recv, n)
 			}
 		}
 	}
-	if len(h.nacked) > 1500 {
+	{
 		for n := range h.nacked {
 			if h.newest-n > 1000 {
 				delete(h.nacked, n)
@@ -477,7 +485,7 @@ func lossFn(t *tr.Trace, r *tr.Rand, n int) {
 // f20: an in-order stream, ONE stray packet more than 256 numbers old, and the
 // stream continues where it was (known finding F20).
 func strayStream(t *tr.Trace, r *tr.Rand, start uint16, run int, back int, rate uint32) {
-	h := newLossHist(t, r, "stray-old-packet", 512)
+	h := newLossHist(t, r, "f20-stray", 512)
 	seq := start
 	for i := 0; i < run; i++ {
 		h.readloop(seq, i == 0, rate, true)
@@ -501,7 +509,8 @@ func steadyHole(t *tr.Trace, r *tr.Rand, start uint16, rate uint32) {
 	h := newLossHist(t, r, "steady-hole", 256)
 	seq := start
 	packets := int(rlPackets(rate))
-	for i := 0; i < r.Range(1, 40); i++ {
+	lead := r.Range(1, 40)
+	for i := 0; i < lead; i++ {
 		h.readloop(seq, i == 0, rate, true)
 		seq++
 	}
@@ -522,7 +531,8 @@ func steadyHole(t *tr.Trace, r *tr.Rand, start uint16, rate uint32) {
 		if requested < 0 {
 			h.t.Fail("C06", "hole_requested", fmt.Sprintf("the single missing packet %d of a steady stream (rate %d, packets %d) was not requested within %d arrivals", hole, rate, packets, packets+1))
 		}
-		for i := 0; i < r.Range(30, 70); i++ {
+		gap := r.Range(30, 70)
+		for i := 0; i < gap; i++ {
 			h.readloop(seq, false, rate, true)
 			seq++
 		}
@@ -639,9 +649,14 @@ func runLoss(t *tr.Trace, r *tr.Rand, n int) {
 				arrive(seq)
 				seq++
 				t.Note("loss")
-			case 2: // duplicate of a recent packet
+			case 2: // duplicate of a recent packet; sometimes as old as the limit allows
 				back := uint16(r.Range(1, 40))
-				if h.everRecv[seq-back] {
+				limit := r.Chance(1, 12) && h.haveNewest
+				if limit {
+					back = seq - h.newest + uint16(r.Range(254, 256))
+					t.Note("old-at-the-limit")
+				}
+				if limit || h.everRecv[seq-back] {
 					arrive(seq - back)
 					t.Note("duplicate")
 				}
@@ -656,7 +671,8 @@ func runLoss(t *tr.Trace, r *tr.Rand, n int) {
 					seq++
 					t.Note("reorder")
 				}
-			case 4: // forward jump (a burst of loss)
+			case 4: // forward jump (a burst of loss); what was held back is lost too
+				pending = nil
 				seq += uint16(r.Range(20, 2000))
 				arrive(seq)
 				seq++
@@ -668,7 +684,8 @@ func runLoss(t *tr.Trace, r *tr.Rand, n int) {
 			case 7: // nackWriter on a few recent numbers, some missing, some held
 				var buf []uint16
 				seen := map[uint16]bool{}
-				for j := 0; j < r.Range(1, 12); j++ {
+				want := r.Range(1, 12)
+				for j := 0; j < want; j++ {
 					var s uint16
 					if len(missing) > 0 && r.Chance(2, 3) {
 						s = missing[len(missing)-1-r.Intn(min(len(missing), 30))]
